@@ -5,7 +5,10 @@ From Helm Require Import Engine.Types Engine.Eff Engine.Ops Engine.Skeleton Engi
                          Engine.SkeletonModel Engine.SkeletonProofs.
 Import ListNotations.
 
-Lemma check_uninstall : check_op OUninstall expected rexpected = true.
+Lemma check_ok_uninstall : check_op_ok OUninstall expected rexpected = true.
+Proof. vm_cast_no_check (eq_refl true). Qed.
+
+Lemma check_fail_uninstall : check_op_fail OUninstall expected rexpected = true.
 Proof. vm_cast_no_check (eq_refl true). Qed.
 
 Lemma check_all_flags_uninstall : check_op_all_flags OUninstall expected rexpected = true.
